@@ -1,7 +1,7 @@
-import Mixin.Model.Consensus
+import Mixin.Model.ConsensusChain
 import Mixin.Facts.Generated
 /-! The transaction / output type codes of `common/transaction.go`, from the regenerated facts. -/
-namespace Mixin.Consensus
+namespace Mixin.ConsensusChain
 open Mixin.Facts
 
 def realCodes : Codes :=
@@ -23,4 +23,4 @@ def realCodes : Codes :=
     oCustodianUpdate := Gen.common_OutputTypeCustodianUpdateNodes
     oCustodianSlash := Gen.common_OutputTypeCustodianSlashNodes }
 
-end Mixin.Consensus
+end Mixin.ConsensusChain
